@@ -218,8 +218,45 @@ fn type_src_with_layout(t: &TypeExpr, rng: &mut Rng) -> String {
 }
 
 /// A source of any class: accepted, conflicting, every kind of error.
+/// The first lines of a module emitted just now (its comment header), and the whole module.
+fn real_emitted(rng: &mut Rng) -> (String, String) {
+    thread_local! { static REAL: Vec<String> = {
+        ["start S\nstruct S\nterminal T {}\n", "start E\nenum E { A($X E) B }\nterminal K { $X: u8 }\n"]
+            .iter()
+            .filter_map(|src| match kside::generate(src, 1_000_000).0 {
+                GenOutcome::Ok(t) => Some(t),
+                _ => None,
+            })
+            .collect()
+    }; }
+    REAL.with(|r| {
+        if r.is_empty() {
+            return (String::new(), String::new());
+        }
+        let t = rng.pick(r).clone();
+        let header: String = t.split_inclusive('\n').take_while(|l| l.starts_with("//")).collect();
+        (header, t)
+    })
+}
+
 fn any_source(rng: &mut Rng, seed: u64, n: u64) -> (String, String) {
-    match rng.below(15) {
+    match rng.below(16) {
+        15 => {
+            // the generator's own output fed back: its comment header (with the `// @sha256 <digest>` line)
+            // as the leading comment of a grammar, or the emitted Rust text itself as "grammar"
+            let (header, module) = real_emitted(rng);
+            let src = small_model(rng).render();
+            match rng.below(4) {
+                0 => ("emitted-module-as-source".into(), module),
+                1 => ("emitted-header-then-grammar".into(), format!("{header}{src}")),
+                2 => ("emitted-header-then-grammar".into(), format!("{}{src}", header.replace('\n', "\r\n"))),
+                _ => {
+                    let mut lines: Vec<&str> = header.split_inclusive('\n').collect();
+                    rng.shuffle(&mut lines);
+                    ("emitted-header-then-grammar".into(), format!("{}{src}", lines.concat()))
+                }
+            }
+        }
         13..=14 => {
             // a file that stops in the middle (of a token, an attribute, a comment ...): calls that
             // fail at different depths of the pipeline, at the very end of the text
@@ -369,6 +406,7 @@ fn header_like_text(rng: &mut Rng) -> String {
 const LAYOUT_SEPS: &[&str] = &[
     "", "", " ", "\n", "  ", "\t", "\r\n", "\u{a0}", "\u{2003}", "\u{2028}", "\u{85}", " // comment\n", "//\n", "// é 中 𝄞 #[ $ / struct \" \n", "\n\n\n", " //x\r\n", "\u{3000}",
     "\u{b}", "\u{c}", "\u{1680}", "\u{2000}", "\u{200a}", "\u{2029}", "\u{202f}", "\u{205f}", "//c\n", "//\r\n", "// a // b\n",
+    "// @sha256 e3b0c44298fc1c149afbf4c8996fb92427ae41e4649b934ca495991b7852b855\n", "// This code was generated by Kiki.\n", "// @sha256 \n",
 ];
 
 struct Relayout {
@@ -687,6 +725,41 @@ impl Text {
 
     fn c13(&self, w: &mut Worker, rng: &mut Rng) {
         let mut m = small_model(rng);
+        if rng.below(120) == 0 {
+            // hundreds of terminals with pairwise DIFFERENT payload types (the number of distinct types in
+            // one grammar on a threshold), a few of them used by the start struct
+            let n = *rng.pick(&[255usize, 256, 257, 258, 300, 1000]);
+            let used: Vec<usize> = vec![0, 1, 127, 128, 254, 255, 256, n / 2, n - 2, n - 1];
+            let mut used: Vec<usize> = used.into_iter().filter(|i| *i < n).collect();
+            used.sort();
+            used.dedup();
+            let style = if rng.chance(0.5) { Style::Named } else { Style::Tuple };
+            m = Model {
+                nts: vec![Nt {
+                    name: "S".into(),
+                    is_enum: false,
+                    prods: vec![Prod { name: String::new(), style, fields: used.iter().map(|i| Field { sym: Sym::T(*i), used: true, name: format!("f{i}") }).collect() }],
+                    attrs: vec![],
+                }],
+                terms: (0..n).map(|i| Term { name: format!("T{i}"), ty: TypeExpr::Unit }).collect(),
+                term_enum: "Tok".into(),
+                term_attrs: vec![],
+                start: 0,
+                start_pos: 0,
+                term_pos: 1,
+            };
+            let wrap = rng.below(3);
+            for (i, t) in m.terms.iter_mut().enumerate() {
+                t.ty = match wrap {
+                    0 => TypeExpr::path(&format!("crate::p::P{i}")),
+                    1 => TypeExpr::Generic(vec!["W".into()], vec![TypeExpr::path(&format!("P{i}")), TypeExpr::Unit]),
+                    _ => TypeExpr::Generic(vec!["Vec".into()], vec![TypeExpr::path(&format!("x::Q{i}"))]),
+                };
+            }
+            w.count("grammars-with-hundreds-of-distinct-payload-types");
+            w.max("max-distinct-payload-types", n as u64);
+            return self.c13_check(w, rng, m);
+        }
         if m.terms.is_empty() {
             w.count("not-applicable:no-terminals");
             return;
@@ -706,6 +779,10 @@ impl Text {
             confusable_terminal_names(&mut m, rng);
             w.count("grammars-with-confusable-terminal-names");
         }
+        self.c13_check(w, rng, m)
+    }
+
+    fn c13_check(&self, w: &mut Worker, rng: &mut Rng, m: Model) {
         // render with layout inside the types
         let mut plain = m.clone();
         let placeholders: Vec<String> = (0..m.terms.len()).map(|i| format!("KvPlaceholder{i}")).collect();
